@@ -322,6 +322,13 @@ def run(prog, rep):
         if fn in ("odml.load", "fileio.load", "VersionConverter", "tools.converters.version_converter.VersionConverter"):
             rep.check(fx.text(c.args[0]) == inp, "FC-1", "_convert_file: %s reads input_path" % fn, "ok", "%s is applied to %s" % (fn, fx.text(c.args[0])), where(cf, c))
     from ..report import import_verdicts
+    import_verdicts(prog, rep, "C10", ("PROV-7",), "CONTENT-1",
+                    "`each output parses as RDF with the content of its source`: what odmltordf and the RDF targets of the format converter write is "
+                    "the graph RDFWriter builds")
+    import_verdicts(prog, rep, "C15", ("DICT-1", "LOG-1", "TAB-11"), "CONTENT-2",
+                    "`each output loads as a current-version document with the content of its source`: odmlconvert / odmltordf convert outdated "
+                    "files with VersionConverter")
+    from ..report import import_verdicts
     import_verdicts(prog, rep, "C16", ("ERR-1", "ROOT-2"), "PROBE-1",
                     "odmlconvert and odmltordf decide with odml.load whether a file is already current: the readers refuse another format "
                     "version by raising in strict and in lenient mode alike; a version error that the lenient reader only records makes the "
